@@ -8,6 +8,32 @@ def classify(rec, v):
     return "C03/render-mismatch"
 
 
+CLIP_KIDS = [
+    ("polygon", [2, 2, 10, 10, 10, 2, 2, 10]), ("polygon", [8, 1, 15, 8, 8, 15, 1, 8]),
+    ("polygon", [8, 1, 11, 13, 2, 5, 14, 5, 5, 13]),
+    ("path", [["M", 2, 2], ["h", 10], ["v", 10], ["h", -10], ["z"], ["M", 5, 5], ["h", 4], ["v", 4], ["h", -4], ["z"]]),
+    ("path", [["M", 2, 2], ["h", 10], ["v", 10], ["h", -10], ["z"], ["M", 5, 5], ["v", 4], ["h", 4], ["v", -4], ["z"]]),
+    ("rect", [1, 1, 6, 5, -1, -1]), ("circle", [9, 9, 5]),
+]
+
+
+def clip_family():
+    """exhaustive: every ordered pair of clipPath children x a clip-rule per child (the clip region is the
+    union of the children, each under its own rule), clipping a full-canvas rect"""
+    docs = []
+    for (ta, ga) in CLIP_KIDS:
+        for (tb, gb) in CLIP_KIDS:
+            for ra in ("nonzero", "evenodd"):
+                for rb in ("nonzero", "evenodd"):
+                    docs.append({"vb": [0, 0, 16, 16], "view": [0, 0, 16, 16], "root": [], "nodes": [
+                        {"d": 1, "tag": "clipPath", "id": "c1", "at": [], "g": [], "ref": ""},
+                        {"d": 2, "tag": ta, "id": "", "at": [["clip-rule", ra, 0]], "g": ga, "ref": ""},
+                        {"d": 2, "tag": tb, "id": "", "at": [["clip-rule", rb, 1]], "g": gb, "ref": ""},
+                        {"d": 1, "tag": "rect", "id": "", "at": [["fill", "red", 0], ["clip-path", "c1", 0]],
+                         "g": [0, 0, 16, 16, -1, -1], "ref": ""}]})
+    return docs
+
+
 def run(out, tier):
     rendercheck.run_focus(
         out, "C03", "clip", tier, 2000, 12000,
@@ -15,8 +41,9 @@ def run(out, tier):
         "incl. self-intersecting and multi-contour polygons and use, clip-rule on child or clipPath, "
         "transform on clipPath and children, clipPath clipped by another clipPath, clip-path on "
         "shapes, groups and use, stacked along ancestors under different CTMs, fill-rule != "
-        "clip-rule); non-trivial = source paints something and stacks were compared", classify,
-        max_nodes=8)
+        "clip-rule) plus the exhaustive family: every ordered pair of 7 clipPath children x a clip-rule "
+        "per child; non-trivial = source paints something and stacks were compared", classify,
+        max_nodes=8, extra_docs=clip_family())
 
 
 replay = rendercheck.replay
